@@ -12,14 +12,17 @@ pub mod error {
 pub struct Ev { pub node: Node, pub suppress: bool, pub ok: bool, pub cf: ExecutionControlFlow, pub code: ExecutionExitCode, pub val: i64, pub conv: (ExecutionControlFlow, ExecutionExitCode), pub aux: Aux }
 
 #[verifier::external_body]
+pub struct ShellOther { _p: u8 }
+#[verifier::external_body]
 pub struct Shell { _p: u8 }
 impl Shell {
+    pub uninterp spec fn other(&self) -> ShellOther;   // everything else (options, traps, ...): untouched by set_last_exit_status
     pub uninterp spec fn trace(&self) -> Seq<Ev>;     // ghost: child executions so far
     pub uninterp spec fn status(&self) -> u8;          // $?
     pub uninterp spec fn xtrace(&self) -> bool;        // set -x
     #[verifier::external_body]
     pub fn set_last_exit_status(&mut self, status: u8)
-        ensures final(self).trace() == old(self).trace(), final(self).status() == status, final(self).xtrace() == old(self).xtrace()
+        ensures final(self).trace() == old(self).trace(), final(self).status() == status, final(self).xtrace() == old(self).xtrace(), final(self).other() == old(self).other()
     { unimplemented!() }
 }
 #[verifier::external_body]
